@@ -391,6 +391,20 @@ func genC13(rt *rapid.T) *c13Gen {
 		}
 		rules = append(rules, r)
 	}
+	if rapid.IntRange(0, 3).Draw(rt, "panicking_condition") == 0 {
+		// a rule whose condition panics in every cycle (recovered by the engine: the rule is simply not a
+		// candidate); nothing the other rules remember is touched by that
+		bad := []gast.Expr{
+			&gast.Bin{Op: gast.OpGT, L: &gast.Call{Recv: gast.P("F"), Name: "Boom"}, R: gast.I(0)},
+			&gast.Bin{Op: gast.OpGT, L: &gast.Bin{Op: gast.OpMod, L: gast.I(7), R: gast.P("F", "U8")}, R: gast.I(0)},
+			&gast.Bin{Op: gast.OpGT, L: &gast.Member{X: &gast.Call{Recv: gast.P("F"), Name: "NilSub"}, Field: "X"}, R: gast.I(0)},
+		}[rapid.IntRange(0, 2).Draw(rt, "panicking_kind")]
+		pr := &gast.Rule{Name: "Panicky", When: bad, Then: []gast.Stmt{&gast.Assign{LHS: gast.P("F", "I16"), Op: "=", RHS: gast.I(1)}}}
+		sp := int64(rapid.IntRange(-3, 3).Draw(rt, "panicking_salience"))
+		pr.Salience = &sp
+		rules = append(rules, pr)
+		k++
+	}
 	c := &val.Case{Rules: rules, SoloTexts: map[string]string{}, Listeners: 1}
 	var b strings.Builder
 	for _, r := range rules {
